@@ -71,7 +71,10 @@ def _walk(pg: Page, el: Any, ctx: List[Any]) -> None:
     pg.vocab.add((tag, ''))
     for a in attrs:
         pg.vocab.add((tag, a))
-    pg.seq.append((tag, tuple(attrs)))
+    # docutils wraps words of an inline literal in <span class="pre"> depending on their characters: formatting
+    # inside a literal, not structure
+    if not (tag == 'span' and el.getAttribute('class') in ('pre', 'rst-pre')):
+        pg.seq.append((tag, tuple(attrs)))
     for a in ('id', 'name'):
         if el.hasAttribute(a) and tag != 'meta' and tag != 'input':
             pg.anchors.add(el.getAttribute(a))
